@@ -125,7 +125,7 @@ class EnergyScanResult:
             If the polled energy is not available.
         """
         if e_kin in self._energies:
-            return self._results[self._energies.index(e_kin)]
+            return self._results[list(self._energies).index(e_kin)]
         else:
             raise ValueError(f"e_kin = {e_kin} eV has not been simulated during this energy scan.")
 
